@@ -27,6 +27,7 @@
  *                                  upper case = bytes equal the encoded source, lower case = differ
  *   CB<esi>:<size>,...             callback invocations in call order ('s' prefix source, 'r' repair)
  *   RO<0|1>                        every buffer handed to the library (received symbols, encoder sources) unchanged
+ *   PS<0|1>                        every source-table entry kept reporting the pointer it reported first (the table is fetched after every call)
  *   LK<n>                          heap blocks still live after release + the application freeing what it owns
  *   HL<a>;<b>,<b>,...;<c|->;<d>    library-owned heap blocks of the DECODER session (allocations made inside the application's callbacks
  *                                  excluded): after create + set_fec_parameters (+ the builds of role 4), after every submission call,
@@ -131,12 +132,14 @@ static unsigned long long state_digest(of_linear_binary_code_cb_t *cb)
  * reports an error (the RS codecs before completion) the table is taken as empty */
 #define SENT ((void *)(uintptr_t)0x5)
 static int stale[MAXN];
+static void *first_seen[MAXN]; static int ptr_stable;	/* an entry of the source table, once reported, must keep reporting the same pointer */
 static void fetch_src_tab(of_session_t *dec, UINT32 k)
 {
 	UINT32 i; of_status_t st;
 	for (i = 0; i < k; i++) { src_tab[i] = SENT; stale[i] = 0; }
 	st = of_get_source_symbols_tab(dec, src_tab);
 	for (i = 0; i < k; i++) if (src_tab[i] == SENT) { src_tab[i] = NULL; stale[i] = (st == OF_STATUS_OK); }
+	for (i = 0; i < k; i++) if (src_tab[i]) { if (!first_seen[i]) first_seen[i] = src_tab[i]; else if (first_seen[i] != src_tab[i]) ptr_stable = 0; }
 }
 
 static void print_masks(of_session_t *dec, int codec, UINT32 k, UINT32 n, int with_digest)
@@ -204,9 +207,9 @@ int main(void)
 		p1 = atol(strtok(NULL, " \n")); p2 = atol(strtok(NULL, " \n")); seed = strtoull(strtok(NULL, " \n"), NULL, 10);
 		api = atol(strtok(NULL, " \n")); cbmode = atoi(strtok(NULL, " \n")); finish = atol(strtok(NULL, " \n")); role = atol(strtok(NULL, " \n"));
 		while ((tok = strtok(NULL, " \n"))) esis[nesi++] = atoi(tok);
-		n = k + r; g_L = L; ncb = 0; ncbbuf = 0; sm_state = seed; ndup = 0;
+		n = k + r; g_L = L; ncb = 0; ncbbuf = 0; sm_state = seed; ndup = 0; ptr_stable = 1;
 		if (n >= MAXN || k < 0 || r < 0) { fprintf(out, "R TOOBIG\n"); continue; }
-		memset(src_tab, 0, sizeof(void *) * (n + 1)); memset(recv_tab, 0, sizeof(void *) * (n + 1)); memset(seen_esi, 0, n + 1);
+		memset(src_tab, 0, sizeof(void *) * (n + 1)); memset(recv_tab, 0, sizeof(void *) * (n + 1)); memset(seen_esi, 0, n + 1); memset(first_seen, 0, sizeof(void *) * (n + 1));
 		fprintf(out, "R ");
 		/* ---------------- encoder ---------------- */
 		if (of_create_codec_instance(&enc, (of_codec_id_t)codec, OF_ENCODER, 0) != OF_STATUS_OK) { fprintf(out, "CREATE-FAILED\n"); continue; }
@@ -352,7 +355,7 @@ int main(void)
 			for (i = 0; i < (UINT32)ncb; i++) fprintf(out, "%s%c%d:%d", i ? "," : "", cb_kind[i], cb_esi[i], cb_size[i]);
 			for (i = 0; i < n; i++) if (memcmp(recv_tab[i], enc_tab[i], L)) ro = 0;
 		}
-		fprintf(out, " RO%d", ro);
+		fprintf(out, " RO%d PS%d", ro, ptr_stable);
 		/* ---------------- release; the application frees what it owns ---------------- */
 		LIB_BEGIN(); of_release_codec_instance(dec); LIB_END();
 		of_release_codec_instance(enc);
